@@ -90,8 +90,11 @@ func safeIdentifier(name string) string {
 func escapeStringLiteral(s string) string {
 	var b strings.Builder
 	b.Grow(len(s))
-	for _, r := range s {
-		switch r {
+	// byte by byte: every escaped character is ASCII, and a byte that is not
+	// valid UTF-8 is part of the value too (ranging over runes would replace
+	// it with U+FFFD)
+	for i := 0; i < len(s); i++ {
+		switch c := s[i]; c {
 		case '\'':
 			b.WriteString("''")
 		case '\\':
@@ -105,7 +108,7 @@ func escapeStringLiteral(s string) string {
 		case '\x1a': // Ctrl-Z (EOF on Windows)
 			b.WriteString(`\Z`)
 		default:
-			b.WriteRune(r)
+			b.WriteByte(c)
 		}
 	}
 	return b.String()
